@@ -122,6 +122,16 @@ CHECKS = {
               'and with strides +1/+8/+32/+64 whose padding holds zeros, 0xFF or random bytes, buffers scribbled and freed right after send_picture; packets and recon must be byte-identical (8 and 10 bit, sizes that are and are not multiples of 8/64).'),
         note=('Partial: the model is a transcription of the copy/pad structure (row copy of `stride` samples, pad_input_picture(s), generate_padding), tied to the code only through the metamorphic runs; that every later stage '
               'reads the internal picture only is observed, not proved.')),
+    'C27': dict(
+        category='proof', design_ref='DESIGN.md §6 C27',
+        technique='Coq theorems: abstract hand-off model (all call orders) + pool sizes regenerated from the C source proved to cover the pipeline window; correspondence of the regenerated model with the real function; pacing patterns on the real encoder',
+        text=('c27_output_independent_of_pacing / c27_pool_covering_window_completes / c27_short_pool_never_completes (Pacing.v: N pictures, pool P, window D, any interleaving of submit, end-of-stream, retrieve / retrieve nothing and '
+              'pipeline steps): completed schedules hand over the same pictures in the same order, a pool covering the window cannot deadlock and completes within 3N+1 events, a shorter pool never completes. '
+              'c27_pools_cover_window: for every configuration of the validated domain, every core count and size class, the input-buffer pool and picture-control-set pool computed by load_default_buffer_configuration_settings '
+              '(regenerated from /repo on every run) are at least the window (PoolSpec.v); c27_encoder_progress composes both. The regenerated model is compared with the real function on ~12000 inputs (21 outputs each); the real '
+              'encoder is run under a watchdog with drain-after-every-send, every 2/3/7, random polling, pauses, drain only at the end, recon on/off, lp 1/2/4: drain-after-every-send must complete and all completed patterns must be byte-identical.'),
+        note=('Trusted: Coq kernel; translators/cast.py+tr_buffers.py; the window formula of PoolSpec.v (a specification transcribed from the hold rules of the stages; on the pinned tree the lp=1,2 pools equal it exactly); the abstract model has one window and '
+              'in-order completion - recon-pool back-pressure and out-of-order completion are exhibited by the runs only (known finding D23: blocking get_packet after EOS with recon can stall).')),
 }
 
 NOT_BUILT_REASON = 'check not built yet in this development (work in progress); no claim is made'
